@@ -116,6 +116,12 @@ func (sh *SignedHeader) ValidateBasic() error {
 		return ErrProposerAddressMismatch
 	}
 
+	// The signer's address must be the address of the signer's key. Without this, a header that
+	// merely names the proposer's address verifies under whatever key its sender put next to it.
+	if sh.Signer.PubKey == nil || !bytes.Equal(sh.Signer.Address, KeyAddress(sh.Signer.PubKey)) {
+		return ErrProposerAddressMismatch
+	}
+
 	var (
 		bz  []byte
 		err error
